@@ -3,12 +3,34 @@
 ARITH_RULE = ("events are real calls recorded by the driver (directed guard/sticky/tie constructions, cancellation, "
               "range edges, boundary pool, random); a step is non-trivial when the exact result is not a member of the "
               "format, so the rounding mode had to choose (TLC verdict ok+); distinct = distinct inputs (op, operands, mode)")
+GEN_RULE = ("events are real calls recorded by the driver (directed boundary classes + random, see DESIGN.md section 6); "
+            "non-trivial = the specification reports the step as one where the operation had to do work (rounding, digit "
+            "dropping, a changed value; TLC verdict ok+); where the operation has no such notion every distinct input counts")
+
+
+def P(level, rule, qsteps, tsteps, qmodels, tmodels, count_all=False, **kw):
+    d = dict(level=level, rule=rule, count_all=count_all,
+             quick=dict(steps=qsteps, shards=10, model_workers=6, models=qmodels),
+             thorough=dict(steps=tsteps, shards=14, model_workers=2, models=tmodels))
+    d.update(kw)
+    return d
+
+
+def A(pid):
+    return [("MC_Arith.tla", "MC_Arith_%s_quick.cfg" % pid)], [("MC_Arith.tla", "MC_Arith_%s_thorough.cfg" % pid)]
+
+
+def O(pid):
+    return [("MC_Ops.tla", "MC_Ops_%s_quick.cfg" % pid)], [("MC_Ops.tla", "MC_Ops_%s_thorough.cfg" % pid)]
+
 
 PROPS = {
-    "C01": dict(level="model_checking", rule=ARITH_RULE,
-                quick=dict(steps=1200, shards=10, model_workers=6, models=[("MC_Arith.tla", "MC_Arith_C01_quick.cfg")]),
-                thorough=dict(steps=40000, shards=14, models=[("MC_Arith.tla", "MC_Arith_C01_thorough.cfg")])),
-    "C02": dict(level="model_checking", rule=ARITH_RULE,
-                quick=dict(steps=1200, shards=10, model_workers=6, models=[("MC_Arith.tla", "MC_Arith_C02_quick.cfg")]),
-                thorough=dict(steps=40000, shards=14, models=[("MC_Arith.tla", "MC_Arith_C02_thorough.cfg")])),
+    "C01": P("model_checking", ARITH_RULE, 1200, 40000, *A("C01")),
+    "C02": P("model_checking", ARITH_RULE, 1200, 40000, *A("C02")),
+    "C03": P("model_checking", ARITH_RULE, 700, 20000, *A("C03")),
+    "C04": P("model_checking", GEN_RULE, 4000, 150000, *O("C04"), count_all=True),
+    "C08": P("model_checking", GEN_RULE, 2500, 80000, *O("C08")),
+    "C11": P("model_checking", GEN_RULE, 1500, 50000, *O("C11")),
+    "C12": P("model_checking", GEN_RULE, 3000, 100000, [("MC_Bid.tla", "MC_Bid_quick.cfg")], [("MC_Bid.tla", "MC_Bid_thorough.cfg")], count_all=True),
+    "C19": P("model_checking", GEN_RULE, 2000, 60000, *O("C19"), count_all=True),
 }
